@@ -7,6 +7,7 @@ import (
 	"bytes"
 	"fmt"
 	"os"
+	"runtime"
 	"sort"
 	"strings"
 
@@ -293,3 +294,21 @@ func sortedKeys[V any](m map[string]V) string {
 func bufioReader(b []byte) *bufio.Reader { return bufio.NewReader(bytes.NewReader(b)) }
 
 func os_Getenv(k string) string { return os.Getenv(k) }
+
+// guard runs code of the program that the driver calls directly and converts a panic into a
+// description (in production such a panic would kill the calling goroutine's process).
+func guard(f func()) (crash string) {
+	defer func() {
+		if r := recover(); r != nil {
+			if d, ok := r.(vrt.DeadlockError); ok {
+				crash = "deadlock: " + strings.Join(d.Blocked, ",")
+				return
+			}
+			buf := make([]byte, 4096)
+			buf = buf[:runtime.Stack(buf, false)]
+			crash = fmt.Sprintf("panic: %v\n%s", r, buf)
+		}
+	}()
+	f()
+	return ""
+}
